@@ -137,7 +137,7 @@ def optima_tt_beam(Y, k=100, l2r=True, ret_all=False, to_orth=True, p=None):
     I = teneva._range(n)
     Q = G.reshape(n, r2) if l2r else G.reshape(r1, n)
 
-    Q *= 2**p0
+    Q = Q * 2**p0
 
     for G in (Z[1:] if l2r else Z[:-1][::-1]):
         r1, n, r2 = G.shape
